@@ -105,29 +105,37 @@ Theorem C13_stitch_everywhere : forall A L d P, wfb A = true -> generate_adms A 
 Proof. exact stitch_everywhere. Qed.
 Print Assumptions C13_stitch_everywhere.
 
-(* the original model is left untouched: generate_adms executed on a store of graphs (clone under a new graph
-   id, writes addressed to the clone, traces read from the source) with graph ids that are fresh (not the
-   source's) and pairwise distinct leaves the source and every bystander graph as they were, and the graph
-   stored under the id given to d is exactly the partition for d computed by generate_adms *)
-Theorem C13_source_untouched : forall st garm A gid_of L,
-  sget st garm = Some A -> wfb A = true -> generate_adms A = Ok L ->
-  ~ In garm (map gid_of (map fst L)) -> NoDup (map gid_of (map fst L)) ->
-  exists st', st_generate_adms st garm gid_of = Ok (st', map (fun dp => (fst dp, gid_of (fst dp))) L) /\
+(* the original model is left untouched: generate_adms executed on a store of graphs (clone under a new graph id,
+   writes addressed to the clone, traces read from the source), with ANY caller-supplied delegation_guids: whenever
+   the call returns, the source and every bystander graph are as they were and the graph stored under the id of
+   d is exactly the partition for d computed by generate_adms.  uuid_fresh concerns only the ids uuid4 hands out
+   for delegation ids without a supplied graph id (not the ARM's, distinct, not among the supplied ones); it is
+   trivially true when the caller supplies every id. *)
+Theorem C13_source_untouched : forall st garm A supplied fresh st' dgs,
+  sget st garm = Some A -> wfb A = true ->
+  uuid_fresh garm supplied fresh (c_ids (catalog_delegations A)) ->
+  st_generate_adms st garm supplied fresh = (st', Ok dgs) ->
+  exists L, generate_adms A = Ok L /\
+    dgs = map (fun dp => (fst dp, gid_for supplied fresh (fst dp))) L /\
     sget st' garm = Some A /\
-    (forall d P, In (d, P) L -> sget st' (gid_of d) = Some P) /\
-    (forall k, ~ In k (map gid_of (map fst L)) -> sget st' k = sget st k).
+    (forall d P, In (d, P) L -> sget st' (gid_for supplied fresh d) = Some P) /\
+    (forall k, ~ In k (map snd dgs) -> sget st' k = sget st k).
 Proof. exact store_level. Qed.
 Print Assumptions C13_source_untouched.
 
-(* the freshness hypothesis cannot be dropped: with delegation_guids naming the source's own graph id the
-   source is overwritten (replayed on the implementation by the harness; reported as a known finding with a
-   proposed guard, proposed_fixes/C13-1.patch) *)
-Theorem C13_source_untouched_needs_fresh_ids_refuted :
-  exists st garm A gid_of st' dgs,
-    sget st garm = Some A /\ wfb A = true /\ In garm (map gid_of (c_ids (catalog_delegations A))) /\
-    st_generate_adms st garm gid_of = Ok (st', dgs) /\ sget st' garm <> Some A.
-Proof. exact source_untouched_needs_fresh_ids_refuted. Qed.
-Print Assumptions C13_source_untouched_needs_fresh_ids_refuted.
+(* ... and a dictionary that names the ARM's own graph id, or one graph id for two delegation ids present, is
+   rejected (since 59579dc) with the store exactly as it was *)
+Theorem C13_bad_guids_rejected : forall st garm supplied fresh,
+  guids_ok garm supplied (c_ids (catalog_delegations (sview st garm))) = false ->
+  st_generate_adms st garm supplied fresh = (st, Err EQuery).
+Proof. exact bad_guids_rejected. Qed.
+Print Assumptions C13_bad_guids_rejected.
+
+Theorem C13_guids_ok_reading : forall garm supplied ds,
+  guids_ok garm supplied ds = true <->
+  ~ In garm (supplied_for supplied ds) /\ NoDup (supplied_for supplied ds).
+Proof. exact guids_ok_iff. Qed.
+Print Assumptions C13_guids_ok_reading.
 
 (* re-keying a partition's delegations to a graph id succeeds and changes only the key *)
 Theorem C13_rekey_only_key : forall A L d P, wfb A = true -> generate_adms A = Ok L -> In (d, P) L ->
@@ -146,7 +154,8 @@ Print Assumptions C13_rekeyed_changes_only_the_key.
 
 (* non-vacuity: a well-formed model with two delegation ids (label-only, capacity-only, both, pooled), two
    different proper partitions, exact entries on the shared node, re-keying succeeds on the partitions and
-   raises on the aggregate model, store run with fresh ids next to a bystander graph *)
+   raises on the aggregate model, store run with a supplied and a generated id next to a bystander graph, the
+   two kinds of bad dictionaries rejected without effect *)
 Example C13_nonvacuous :
   wfb ex_A = true /\
   (exists L, generate_adms ex_A = Ok L /\ map fst L = [1; 2] /\
@@ -155,6 +164,9 @@ Example C13_nonvacuous :
        [Some (Some [(1, DPoolDef 1 3)], Some [(1, DSingle 5)]); Some (Some [(2, DSingle 4)], Some [(2, DSingle 6)])] /\
      map (fun dp => snd (rewrite_delegations (snd dp) 99)) L = [None; None] /\
      snd (rewrite_delegations ex_A 99) = Some EQuery) /\
-  (exists st', st_generate_adms [(50, wit_A); (100, ex_A)] 100 (fun d => 100 + d) = Ok (st', [(1, 101); (2, 102)]) /\
-     map fst st' = [50; 100; 101; 102] /\ sget st' 100 = Some ex_A /\ sget st' 50 = Some wit_A).
+  (exists st', st_generate_adms [(50, wit_A); (100, ex_A)] 100 [(1, 101); (7, 100)] (fun d => 100 + d) = (st', Ok [(1, 101); (2, 102)]) /\
+     map fst st' = [50; 100; 101; 102] /\ sget st' 100 = Some ex_A /\ sget st' 50 = Some wit_A /\
+     uuid_fresh 100 [(1, 101); (7, 100)] (fun d => 100 + d) (c_ids (catalog_delegations ex_A))) /\
+  st_generate_adms [(50, wit_A); (100, ex_A)] 100 [(2, 100)] (fun d => 100 + d) = ([(50, wit_A); (100, ex_A)], Err EQuery) /\
+  st_generate_adms [(50, wit_A); (100, ex_A)] 100 [(1, 77); (2, 77)] (fun d => 100 + d) = ([(50, wit_A); (100, ex_A)], Err EQuery).
 Proof. exact ex_nonvacuous. Qed.
